@@ -82,7 +82,11 @@ pub fn gen_program_focus(r: &mut Rng, with_double_claim: bool, focus: u8) -> Pro
                 let cancel = if r.chance(1, 5) { Some(1 + r.below(6) as u32) } else { None };
                 let server = r.below(nservers);
                 let pick = match focus {
-                    1 => 14 + r.below(3),
+                    1 => {
+                        // channel steps, one in five a refused second claim of a channel end
+                        let k = r.below(5);
+                        if k == 4 { 23 } else { 14 + k.min(2) }
+                    }
                     2 => *r.pick(&[5usize, 10, 10, 11, 11, 12, 12, 13, 1]),
                     _ => r.below(if with_double_claim { 24 } else { 23 }),
                 };
@@ -689,6 +693,9 @@ async fn double_claim(env: &Rc<Env>, me: usize, peer1: usize, peer2: usize) {
         return;
     }
     let h = env.h(me);
+    if (me + peer1 + 2 * peer2) % 2 == 1 {
+        return double_claim_receiver(env, me, peer1, peer2).await;
+    }
     sh.op("double_claim");
     let (unclaimed_sender, pending_receiver) = match h.create_low_level_channel().claim_receiver(4).await {
         Ok(x) => x,
@@ -717,6 +724,52 @@ async fn double_claim(env: &Rc<Env>, me: usize, peer1: usize, peer2: usize) {
         other => sh.fail("double-claim-disturbs-first", format!("after a failed second claim the receiver got {:?}", other)),
     }
     let _ = tx.close().await;
+    let _ = rx.close().await;
+}
+
+/// The mirror image: the receiver end is claimed twice (the second time by the same or by
+/// another client); the established channel must keep working in both directions of the protocol
+/// (items flow, capacity is replenished) after the refused claim and after everything the
+/// refused claimer's handle does when it is dropped.
+async fn double_claim_receiver(env: &Rc<Env>, me: usize, peer1: usize, peer2: usize) {
+    let sh = env.sh.clone();
+    let h = env.h(me);
+    sh.op("double_claim_receiver");
+    let (pending_sender, unclaimed_receiver) = match h.create_low_level_channel().claim_sender().await {
+        Ok(x) => x,
+        Err(e) => return unexpected(&sh, "channel.claim_sender", &e),
+    };
+    let unbound = unclaimed_receiver.unbind();
+    let mut rx = match unbound.claim(env.h(peer1), 2).await {
+        Ok(rx) => rx,
+        Err(e) => return unexpected(&sh, "receiver.claim", &e),
+    };
+    let mut tx = match pending_sender.establish().await {
+        Ok(tx) => tx,
+        Err(e) => return unexpected(&sh, "sender.establish", &e),
+    };
+    match unbound.claim(env.h(peer2), 1).await {
+        Err(aldrin::Error::InvalidChannel) => {}
+        Ok(_) => return sh.fail("double-claim-accepted", "the same channel end was claimed twice".into()),
+        Err(e) => unexpected(&sh, "second-claim", &e),
+    }
+    // let the refused claimer's clean-up reach the broker before the channel is used
+    let _ = env.h(peer2).sync_broker().await;
+    // more items than the capacity: the receiver's grants have to reach the sender as well
+    for i in 0..5u32 {
+        if let Err(e) = tx.send_item(i).await {
+            return sh.fail("double-claim-disturbs-first", format!("after a refused second claim of the receiver the sender's send_item({}) fails with {:?}", i, e));
+        }
+        match rx.next_item::<u32>().await {
+            Ok(Some(x)) if x == i => {}
+            other => return sh.fail("double-claim-disturbs-first", format!("after a refused second claim of the receiver, item {} arrived as {:?}", i, other)),
+        }
+    }
+    let _ = tx.close().await;
+    match rx.next_item::<u32>().await {
+        Ok(None) => {}
+        other => sh.fail("double-claim-disturbs-first", format!("after the sender closed, the receiver got {:?}", other)),
+    }
     let _ = rx.close().await;
 }
 
